@@ -6,10 +6,12 @@ This validates translator + run-time against the real function, independently of
 
 wire format of a `PyVal` (no white space): `N` | `T` | `F` | `i<decimal>` | `s<hex code points joined by '.', '-' = empty>`
 | `L[v,v,…]` list | `U[…]` tuple | `I[…]` materialised iterator | `D[U[k,v],…]` dict | `m` NegativeInfinity | `p` Infinity
-| `O<Class>{field=v,…}` object
+| `O<Class>{field=v,…}` object (`Oset{items=L[…]}` / `Ofrozenset{…}`: members sorted by wire form)
 -/
 namespace DriverSrc
 open PyRt Py
+
+def sortStrs (l : List String) : List String := (l.toArray.qsort (· < ·)).toList
 
 mutual
 def encVal : PyVal → String
@@ -23,6 +25,9 @@ def encVal : PyVal → String
   | .iter l => "I[" ++ encVals l ++ "]"
   | .negInf => "m"
   | .posInf => "p"
+  -- x2: sets travel with their members sorted by wire form (CPython's hash-table order is not modelled)
+  | .obj "set" [("items", .list l)] => "Oset{items=L[" ++ ",".intercalate (sortStrs (encValList l)) ++ "]}"
+  | .obj "frozenset" [("items", .list l)] => "Ofrozenset{items=L[" ++ ",".intercalate (sortStrs (encValList l)) ++ "]}"
   | .obj c fs => "O" ++ c ++ "{" ++ encFields fs ++ "}"
   | .unbound => "?"
   | .notImpl => "X"
@@ -31,6 +36,9 @@ def encItems : List (PyVal × PyVal) → String
   | [] => ""
   | [(k, v)] => "U[" ++ encVal k ++ "," ++ encVal v ++ "]"
   | (k, v) :: r => "U[" ++ encVal k ++ "," ++ encVal v ++ "]," ++ encItems r
+def encValList : List PyVal → List String
+  | [] => []
+  | v :: vs => encVal v :: encValList vs
 def encVals : List PyVal → String
   | [] => ""
   | [v] => encVal v
